@@ -10,9 +10,14 @@ inductive Verdict where
   | readOnly
   /-- big.Int operands, only passed as arguments / read-only receivers (Cmp, Sign) -/
   | readOnlyBig
-  /-- holds `*typeInfo` values that are handed to every build and that the type checker and the
-  emitter mutate (`setValue`, `emitter.ti`): cross-build state — known finding
-  `history-universe-bool`; not order-independent, not proved anything about -/
+  /-- holds `*typeInfo` values that are handed to every build, of a type whose fields the type
+  checker and the emitter assign (`setValue`, `emitter.ti`): possible cross-build state. The one
+  history known to show it — finding `history-universe-bool`, the type info of the predeclared
+  `true` / `false` left with a defined boolean type — is cured by bb933ad (`checkIdentifier`
+  records a copy of the type info of a constant for every use; `setValue` returns at once on a
+  type info that is not a constant, `emitter.ti` writes only where `valueType` was set by it).
+  That no other path writes a shared one is not proved (it needs a points-to analysis): the
+  build-A, build-B, build-A and rebuild oracles of go/props/c30 look for it -/
   | sharedTypeInfo
   deriving DecidableEq, Repr
 
@@ -41,7 +46,8 @@ def reviewed : List (String × String × Verdict) := [
 /-- `<field> <function>`: every assignment to a field of a `typeInfo` (directly or through a
 `*typeInfo`) outside init functions — regenerated, pinned here. Read: `typeInfo.setValue` and
 `emitter.ti` write whatever type info a node of the tree maps to; for the identifiers `true` and
-`false` that is the *shared* one of the universe scope (finding `history-universe-bool`). Most of
+`false` that was the *shared* one of the universe scope (finding `history-universe-bool`) until
+fix bb933ad made `checkIdentifier` map every use of a constant to a copy. Most of
 the others write a type info allocated a few lines before (`ti := &typeInfo{…}`); they have not
 been audited one by one — `checkCallExpression` (MethodType) and `checkFieldSelector` write the
 type info returned by a sub-expression check. The repeated-build oracle is what looks for more. -/
